@@ -17,15 +17,21 @@ META = {
              "variants; decision table of 6+2 dependence kinds x 5 attributes x gamma dim x occurrences; LMRF and direct rows) "
              "that the Gamma the modelled sampler draws from differs from the target's documented log-density along "
              "d in {1,2,4} by a constant (symbolic logs), that the probing validation equals the documented table, that rejected "
-             "rows are exactly the non-conjugate ones, and that the chain is the sequence of generator draws; three named "
-             "deviations must violate DrawnIsTarget. Every emitted instance is replayed into the real samplers (both "
-             "interfaces): arguments of numpy.random.gamma vs TLC's exact (shape, rate), constant-difference identity "
-             "against the real target.logd at d=1,2,4, accept/reject outcome, chain values = scripted draws."),
+             "rows are exactly the non-conjugate ones, and that the chain is the sequence of generator draws; every row of the "
+             "decision table reaches the sampler on four paths (constructor; SetTarget on a sampler constructed without target, "
+             "constructed on a supported posterior, stepped on a supported posterior) and the decision must not depend on the "
+             "path (DecisionIgnoresHistory); five named deviations must violate DrawnIsTarget / DecisionIgnoresHistory. Every "
+             "emitted instance x path is replayed into the real samplers (both interfaces; target assignment in the "
+             "experimental interface, which documents it): arguments of numpy.random.gamma vs TLC's exact (shape, rate), "
+             "constant-difference identity against the real target.logd at d=1,2,4, accept/reject outcome, chain values = "
+             "scripted draws."),
     "note": ("Bounded sizes and a fixed family of dependence kinds. ConjugateApprox: only the documented rejections and "
              "'chain = draws' are asserted, its approximation error is recorded as an observation. Regularized (implicit) "
              "pairs are not modelled (no density of their own). Rates of periodic/neumann fields are compared up to the "
              "sqrt(eps) diagonal jitter of GMRF.sqrtprec. Legacy rows that are accepted but exact (prec = 2 d, "
-             "sqrtprec = sqrt(d)) are observations, not violations."),
+             "sqrtprec = sqrt(d)) are observations, not violations. Assigning to the plain `target` attribute of the legacy "
+             "classes (no documented setter) is recorded, not asserted; numeric sweep instances take the SetTarget path in the "
+             "thorough tier only."),
     "technique": "TLA+ spec (Conjugate, extends DiffOps) model-checked with TLC; TLC-emitted cases replayed into cuqi samplers with scripted numpy.random.gamma",
 }
 
@@ -50,10 +56,21 @@ def _quiet():
     return contextlib.redirect_stdout(io.StringIO())
 
 
+def _via(c):
+    """Path on which the posterior reaches the sampler (Conjugate.tla `via`): ctor | set_none | set_valid | set_stepped."""
+    return c.get("via") or "ctor"
+
+
 def _key(c):
-    return "fam=%s/pd=%d/n=%d/bc=%s/order=%d/attr=%s/dep=%s/gdim=%d/occ=%d/model=%d/v=%d" % (
+    k = "fam=%s/pd=%d/n=%d/bc=%s/order=%d/attr=%s/dep=%s/gdim=%d/occ=%d/model=%d/v=%d" % (
         c["fam"], c["pd"], c["n"], c["gbc"], c["gorder"], c["attr"] or "-", c["dep"] or "-", c["gdim"], c["occ"],
         c["model"], c["v"])
+    return k if _via(c) == "ctor" else k + "/via=" + _via(c)
+
+
+def _own_draws(c):
+    """The part of the specification's chain drawn after the posterior reached the sampler."""
+    return c["chain"][int(c.get("bsteps", 0)):] if c["accept"] else [2, 4]
 
 
 def _dep_fn(dep):
@@ -176,13 +193,33 @@ def _sampler_classes():
         raise MachineryError("sampler class missing: %s" % e)
 
 
-def run_sampler(iface, target, init, draws):
-    """Construct the sampler on `target` and make len(draws) steps with numpy.random.gamma scripted to return `draws`.
-    Returns dict(stage=None|'construct'|'step', error=..., gammas=[(shape, rate)], chain=[...])."""
+def run_sampler(iface, target, init, draws, via="ctor", base_target=None, basedraw=5):
+    """Hand `target` to a sampler on the path `via` and make len(draws) steps with numpy.random.gamma scripted to return
+    `draws`.
+      ctor         the constructor is given `target`
+      set_none     a sampler constructed without target, then `sampler.target = target`
+      set_valid    a sampler constructed on the supported posterior `base_target`, then `sampler.target = target`
+      set_stepped  as set_valid with one step (draw `basedraw`) on `base_target` before the assignment
+    Returns dict(stage=None|'base'|'construct'|'step', error=..., gammas=[(shape, rate)], chain=[...]); 'construct' = refused
+    when the target was given (constructor or assignment); base_gammas / base_chain belong to the step on `base_target`."""
     from cuqiverif import script_rng
     from cuqiverif.core import MachineryError
     cls = _sampler_classes()[iface]
-    out = {"stage": None, "error": None, "gammas": [], "chain": [], "returned": []}
+    out = {"stage": None, "error": None, "gammas": [], "chain": [], "returned": [], "base_gammas": [], "base_chain": []}
+    exp = iface.startswith("exp")
+    nb = 1 if via == "set_stepped" else 0
+    if via != "ctor" and not exp and via == "set_none":
+        raise MachineryError("the legacy samplers have no constructor without target")
+
+    def read_log(log):
+        g = []
+        for fn, kind, shape, args in log:
+            if kind != "gamma":
+                raise MachineryError("unexpected random draw %s of kind %s in a conjugate step" % (fn, kind))
+            a = np.asarray(args["shape"], dtype=float).ravel()
+            sc = np.asarray(args["scale"], dtype=float).ravel()
+            g.append((float(a[0]), float(1.0 / sc[0]), a.size, int(np.prod(shape)) if shape else 1))
+        return g
 
     def mk(v):
         def f(shape):
@@ -192,21 +229,48 @@ def run_sampler(iface, target, init, draws):
     # draws beyond the script (a sampler drawing more than once per step) get fresh distinct values
     filler = {"gamma": lambda shape: mk(100.0 + len(out["returned"]))(shape)}
     try:
-        with script_rng.scripted({"gamma": [mk(v) for v in draws]}, default=filler) as st:
+        with script_rng.scripted({"gamma": [mk(v) for v in ([basedraw] * nb + list(draws))]}, default=filler) as st:
+            x = np.array([float(init)])
+            s = None
+            if via != "ctor":
+                # the sampler object that exists before the posterior reaches it
+                try:
+                    if via == "set_none":
+                        s = cls(initial_point=np.array([float(init)]))
+                    elif exp:
+                        s = cls(base_target, initial_point=np.array([float(init)]))
+                    else:
+                        s = cls(base_target)
+                    if nb and exp:
+                        s.sample(nb)
+                        out["base_chain"] = [float(v) for v in np.asarray(s.get_samples().samples).ravel()]
+                    elif nb:
+                        x = np.atleast_1d(np.asarray(s.step(x), dtype=float))
+                        out["base_chain"] = [float(x.ravel()[0])]
+                except script_rng.ScriptError as e:
+                    raise MachineryError("scripted generator cannot follow the sampler: %s" % e)
+                except Exception as e:
+                    out["stage"], out["error"] = "base", "%s: %s" % (type(e).__name__, str(e)[:160])
+                    return out
+                out["base_gammas"] = read_log(st.log)
+            n0, r0 = len(st.log), len(out["returned"])
             try:
-                if iface.startswith("exp"):
+                if s is not None:
+                    s.target = target
+                elif exp:
                     s = cls(target, initial_point=np.array([float(init)]))
                 else:
                     s = cls(target)
+            except script_rng.ScriptError as e:
+                raise MachineryError("scripted generator cannot follow the sampler: %s" % e)
             except Exception as e:
                 out["stage"], out["error"] = "construct", "%s: %s" % (type(e).__name__, str(e)[:160])
                 return out
             try:
-                if iface.startswith("exp"):
+                if exp:
                     s.sample(len(draws))
-                    out["chain"] = [float(v) for v in np.asarray(s.get_samples().samples).ravel()]
+                    out["chain"] = [float(v) for v in np.asarray(s.get_samples().samples).ravel()][len(out["base_chain"]):]
                 else:
-                    x = np.array([float(init)])
                     for _ in draws:
                         x = np.atleast_1d(np.asarray(s.step(x), dtype=float))
                         out["chain"].append(float(x.ravel()[0]))
@@ -214,15 +278,36 @@ def run_sampler(iface, target, init, draws):
                 raise MachineryError("scripted generator cannot follow the sampler: %s" % e)
             except Exception as e:
                 out["stage"], out["error"] = "step", "%s: %s" % (type(e).__name__, str(e)[:160])
-            for fn, kind, shape, args in st.log:
-                if kind != "gamma":
-                    raise MachineryError("unexpected random draw %s of kind %s in a conjugate step" % (fn, kind))
-                a = np.asarray(args["shape"], dtype=float).ravel()
-                sc = np.asarray(args["scale"], dtype=float).ravel()
-                out["gammas"].append((float(a[0]), float(1.0 / sc[0]), a.size, int(np.prod(shape)) if shape else 1))
+            out["gammas"] = read_log(st.log[n0:])
+            out["returned"] = out["returned"][r0:]
     except script_rng.ScriptError as e:
         raise MachineryError("scripted generator cannot follow the sampler: %s" % e)
     return out
+
+
+def _base_target(ctx, c):
+    """The supported posterior (specification: BaseInst) a sampler holds before the posterior of case c is assigned."""
+    if _via(c) in ("ctor", "set_none"):
+        return None
+    return build_target(c["base"], "pair")
+
+
+def check_base_step(ctx, c, iface, res):
+    """The step made on the base posterior before the assignment: a draw of that posterior's own conjugate update."""
+    if _via(c) != "set_stepped":
+        return
+    sig = "%s/%s" % (iface, _key(c))
+    bd = float(c["basedraw"])
+    if res["base_chain"] != [bd]:
+        ctx.mismatch("chain_value/base_step/" + sig, c, "the step on the first target did not record the value returned by the Gamma generator",
+                     expected=[bd], observed=res["base_chain"])
+    b = c["base"]
+    if b["fam"] in ("gaussian", "gmrf") and res["base_gammas"]:
+        a, r = res["base_gammas"][0][:2]
+        sh, ra = float(_fr(b["shape"])), float(_fr(b["rate"]))
+        if abs(a - sh) > 1e-9 * max(1.0, sh) or abs(r - ra) > 1e-9 * max(1.0, ra):
+            ctx.mismatch("base_step_gamma/" + sig, c, "the Gamma drawn from in the step on the first (supported) target is not that "
+                         "target's conjugate update", expected=(sh, ra), observed=(a, r))
 
 
 # ----------------------------------------------------------------------------------------------------------------
@@ -313,6 +398,11 @@ def check_accepted(ctx, c, iface, real, target, res, draws):
     return ok
 
 
+_VIA_TEXT = {"ctor": "by the constructor", "set_none": "sampler.target = posterior on a sampler constructed without target",
+             "set_valid": "sampler.target = posterior on a sampler constructed on a supported posterior",
+             "set_stepped": "sampler.target = posterior on a sampler that has stepped on a supported posterior"}
+
+
 def replay_conj(ctx, c):
     """Gaussian / GMRF instance (numeric sweep or decision-table row)."""
     key = _key(c)
@@ -321,18 +411,36 @@ def replay_conj(ctx, c):
         reals.append("hier")
     if c["model"] == 1:
         reals = ["hier"]
-    draws = c["chain"] if c["accept"] else [2, 4]
+    via = _via(c)
+    if via != "ctor":
+        reals = reals[:1]
+    draws = _own_draws(c)
     for real in reals:
         try:
             target = build_target(c, real)
+            base = _base_target(ctx, c)
         except Exception as e:
             ctx.mismatch("build/%s/%s" % (real, key), c, "the posterior cannot be formed by conditioning the joint distribution: %r" % e)
             continue
         for iface in ("exp", "legacy"):
-            ctx.case(("conj", key, real, iface, tuple(draws)), facet="%s/%s" % (iface, "accept" if c["accept"] else "reject"))
+            if iface == "legacy" and via != "ctor":
+                # the legacy class offers no way of replacing the target (plain attribute, validation documented for the
+                # constructor only): what an assignment does is recorded for one path and never asserted
+                if via == "set_valid":
+                    res = run_sampler(iface, target, c["init"], draws, via, base, c["basedraw"])
+                    ob = ctx.observations.setdefault("legacy_target_attribute_reassigned", {})
+                    k = "%s: %s" % ("supported" if c["accept"] else "unsupported", res["stage"] or "samples")
+                    ob[k] = ob.get(k, 0) + 1
+                continue
+            ctx.case(("conj", key, real, iface, tuple(draws)), facet="%s/%s/%s" % (iface, "accept" if c["accept"] else "reject", via))
             ctx.traces += 1
-            res = run_sampler(iface, target, c["init"], draws)
+            res = run_sampler(iface, target, c["init"], draws, via, base, c.get("basedraw", 5))
             sig = "%s/%s/%s" % (iface, real, key)
+            if res["stage"] == "base":
+                ctx.mismatch("rejects_supported/base/" + sig, c, "the supported posterior the sampler is first constructed on is "
+                             "refused / cannot be stepped: %s" % res["error"])
+                continue
+            check_base_step(ctx, c, iface, res)
             if c["accept"]:
                 if res["stage"] is not None:
                     ctx.mismatch("rejects_supported/" + sig, c, "a documented conjugate pair is refused (%s): %s" % (res["stage"], res["error"]))
@@ -345,9 +453,9 @@ def replay_conj(ctx, c):
             if iface == "exp":
                 # docstring of the target setter: "Runs validation of the target"
                 ctx.mismatch("accepts_unsupported/" + sig, c,
-                             "the conjugate sampler does not refuse, when the target is set, a posterior outside the documented "
-                             "conjugate structure (%s)" % ("fails later: " + res["error"] if res["stage"] else "it samples"),
-                             expected="exception at construction", observed=res["gammas"][:1])
+                             "the conjugate sampler does not refuse, when the target is set (%s), a posterior outside the documented "
+                             "conjugate structure (%s)" % (_VIA_TEXT[via], "fails later: " + res["error"] if res["stage"] else "it samples"),
+                             expected="exception when the target is given", observed=res["gammas"][:1])
                 continue
             # legacy interface: refused late (exception before any value is produced) is still a refusal
             if res["stage"] == "step" and not res["chain"]:
@@ -389,12 +497,21 @@ def replay_lmrf(ctx, c):
     except Exception as e:
         ctx.mismatch("build/pair/" + key, c, "the posterior cannot be formed by conditioning the joint distribution: %r" % e)
         return
-    draws = c["chain"] if c["accept"] else [2, 4]
+    draws = _own_draws(c)
+    via = _via(c)
+    base = _base_target(ctx, c)
     for iface in ("exp_approx", "legacy_approx"):
-        ctx.case(("lmrf", key, iface, tuple(draws)), facet="%s/%s" % (iface, "accept" if c["accept"] else "reject"))
+        if iface == "legacy_approx" and via != "ctor":
+            continue
+        ctx.case(("lmrf", key, iface, tuple(draws)), facet="%s/%s/%s" % (iface, "accept" if c["accept"] else "reject", via))
         ctx.traces += 1
-        res = run_sampler(iface, target, c["init"], draws)
+        res = run_sampler(iface, target, c["init"], draws, via, base, c.get("basedraw", 5))
         sig = "%s/pair/%s" % (iface, key)
+        if res["stage"] == "base":
+            ctx.mismatch("rejects_supported/base/" + sig, c, "the supported (LMRF, Gamma) posterior the sampler is first constructed on "
+                         "is refused / cannot be stepped: %s" % res["error"])
+            continue
+        check_base_step(ctx, c, iface, res)
         if iface == "legacy_approx":
             # the legacy class documents no validation: outcomes are recorded only
             ctx.observations.setdefault("legacy_approx_outcomes", {})["%s/%s/gdim=%d/v=%d" % (c["gbc"], c["dep"], c["gdim"], c["v"])] = \
@@ -402,8 +519,8 @@ def replay_lmrf(ctx, c):
             continue
         if not c["accept"]:
             if res["stage"] != "construct":
-                ctx.mismatch("accepts_unsupported/" + sig, c, "ConjugateApprox does not refuse a posterior outside its documented structure "
-                             "(Gamma on the inverse scale, univariate, zero location)", "exception at construction",
+                ctx.mismatch("accepts_unsupported/" + sig, c, "ConjugateApprox does not refuse (%s) a posterior outside its documented structure "
+                             "(Gamma on the inverse scale, univariate, zero location)" % _VIA_TEXT[via], "exception when the target is given",
                              res["error"] or res["gammas"][:1])
             continue
         if res["stage"] is not None:
@@ -456,9 +573,11 @@ def replay_direct(ctx, c):
     from cuqiverif import script_rng
     from cuqiverif.core import MachineryError
     Direct = _sampler_classes()["direct"]
-    key = "direct/tgt=%s/n=%d" % (c["tgt"], c["n"])
+    via = _via(c)
+    key = "direct/tgt=%s/n=%d" % (c["tgt"], c["n"]) + ("" if via == "ctor" else "/via=" + via)
     n = c["n"]
-    ids = c["chain"] if c["accept"] else [2, 4]
+    ids = _own_draws(c)
+    nb = 1 if via == "set_stepped" else 0
     # scripted draws: distinct entries; mixed signs for the targets whose support is the whole space (a sampler that
     # post-processes the draw - abs, clipping at 0 - must not go unnoticed); positive for the Gamma target
     sgn = (lambda v: np.ones(n)) if c["tgt"] not in ("gaussian", "gmrf") else \
@@ -466,33 +585,62 @@ def replay_direct(ctx, c):
     vec = lambda v: float(v) * sgn(v) * (np.arange(n, dtype=float) + 1.0) / n
     # (a) target.sample scripted on the instance
     target = _direct_target(c)
-    ctx.case((key, "scripted_sample", tuple(ids)), facet="direct/" + ("accept" if c["accept"] else "reject"))
+    ctx.case((key, "scripted_sample", tuple(ids)), facet="direct/%s/%s" % ("accept" if c["accept"] else "reject", via))
     ctx.traces += 1
-    if not c["accept"]:
-        try:
-            Direct(target)
-        except Exception:
-            return
-        ctx.mismatch("accepts_unsupported/" + key, c, "Direct does not refuse a target without a sampling method", "exception", "accepted")
-        return
-    # validation may probe target.sample (those calls return vec(1)); the scripted draws start with sampling
     scr = _ScriptedSample([], vec)
     marks = []
+    cb = lambda sample, idx: marks.append(len(scr.calls))
+    # the sampler object that exists before the target reaches it (specification: ConstructBase, StepBase)
+    s, base = None, None
+    if via != "ctor":
+        try:
+            if via == "set_none":
+                s = Direct(callback=cb)
+            else:
+                base = _direct_target(c["base"])
+                base.sample = _ScriptedSample([], lambda i: vec(c["basedraw"]))
+                s = Direct(base, callback=cb)
+                if nb:
+                    s.sample(nb)
+        except Exception as e:
+            ctx.mismatch("rejects_supported/base/" + key, c, "Direct refuses / cannot step the samplable target it is first constructed on: %r" % (e,))
+            return
+    if not c["accept"]:
+        try:
+            if s is None:
+                Direct(target)
+            else:
+                s.target = target
+        except Exception:
+            return
+        ctx.mismatch("accepts_unsupported/" + key, c, "Direct does not refuse (%s) a target without a sampling method" % _VIA_TEXT[via],
+                     "exception", "accepted")
+        return
+    # validation may probe target.sample (those calls return vec(1)); the scripted draws start with sampling
     target.sample = scr
     try:
         try:
-            s = Direct(target, callback=lambda sample, idx: marks.append(len(scr.calls)))
+            if s is None:
+                s = Direct(target, callback=cb)
+            else:
+                s.target = target
         except Exception as e:
             ctx.mismatch("rejects_supported/" + key, c, "Direct refuses a target that has a sampling method: %r" % e)
             return
         ctx.observations.setdefault("direct_validation_probe_calls", {})[c["tgt"]] = len(scr.calls)
         scr.values, scr.calls = [vec(v) for v in ids], []
+        del marks[:]
         try:
             s.sample(len(ids))
             chain = np.asarray(s.get_samples().samples, dtype=float).reshape(n, -1)
         except Exception as e:
             ctx.mismatch("direct_raises/" + key + "/scripted_sample", c, "Direct raises while sampling a target that has a sampling method: %r" % (e,))
             return
+        if nb:
+            if chain.shape[1] < nb or not np.array_equal(chain[:, 0], vec(c["basedraw"])):
+                ctx.mismatch("direct_chain/base_step/" + key, c, "the step on the first target did not record the value returned by that "
+                             "target's sampling method", expected=vec(c["basedraw"]), observed=chain[:, :nb])
+            chain = chain[:, nb:]
     finally:
         del target.sample
     exp = np.array([vec(v) for v in ids]).T
@@ -507,7 +655,7 @@ def replay_direct(ctx, c):
     elif not np.array_equal(chain, exp):
         ctx.observe("direct_calls_per_step", [len(p) for p in per_step])
     # (b) the real sampling method with the base generator scripted (Gamma target)
-    if c["tgt"] == "gamma":
+    if c["tgt"] == "gamma" and via == "ctor":
         ctx.case((key, "scripted_generator", tuple(ids)))
         ctx.traces += 1
         target = _direct_target(c)
@@ -588,8 +736,9 @@ def replay_case(ctx, c):
         replay_conj(ctx, c)
 
 
-ACTIONS = ["Build", "Validate", "ComputeShapeRate", "Draw", "DrawOther"]
-DEVIATIONS = ["ShapeLen", "ScaleAtCurrent", "NoProbe"]
+ACTIONS = ["Build", "ConstructBase", "StepBase", "Validate", "SetTarget", "ComputeShapeRate", "Draw", "DrawOther"]
+DEVIATIONS = {"ShapeLen": "DrawnIsTarget", "ScaleAtCurrent": "DrawnIsTarget", "NoProbe": "DrawnIsTarget",
+              "StalePair": "DrawnIsTarget", "ValidateFirstOnly": "DecisionIgnoresHistory"}
 
 
 def run(ctx):
@@ -602,24 +751,34 @@ def run(ctx):
     cases = res.cases
     _tlc.cleanup(res)
     # named deviations: each must violate DrawnIsTarget on the model (non-vacuity; design-level account of the findings)
-    for dev in DEVIATIONS:
+    for dev, inv in DEVIATIONS.items():
         r = ctx.tlc("Conjugate", cfg="Conjugate.dev_%s.cfg" % dev, workers=16, timeout=600,
                     extra_modules=("DiffOps.tla",), expect_violation=True)
-        if r.violated != "DrawnIsTarget":
-            raise MachineryError("deviation %s does not violate DrawnIsTarget (violated=%r): vacuous invariant" % (dev, r.violated))
+        if r.violated != inv:
+            raise MachineryError("deviation %s does not violate %s (violated=%r): vacuous invariant" % (dev, inv, r.violated))
         _tlc.cleanup(r)
-    ctx.observe("deviations_violating_DrawnIsTarget", DEVIATIONS)
+    ctx.observe("deviations_violating_DrawnIsTarget", [d for d, i in DEVIATIONS.items() if i == "DrawnIsTarget"])
+    ctx.observe("deviations_violating_DecisionIgnoresHistory", [d for d, i in DEVIATIONS.items() if i == "DecisionIgnoresHistory"])
     if not cases:
         raise MachineryError("no cases emitted by Conjugate")
     groups = {}
     for c in cases:
         groups.setdefault((_key(c), c["tgt"], tuple(c["chain"])), []).append(c)
     n_acc = n_rej = 0
+    paths = {}
     for gk in sorted(groups):
         for c in _choose_variant(ctx, groups[gk]):
             replay_case(ctx, c)
             n_acc += bool(c["accept"])
             n_rej += not c["accept"]
+            k = "%s/%s" % (_via(c), "accept" if c["accept"] else "reject")
+            paths[k] = paths.get(k, 0) + 1
+    # every path on which a target reaches a sampler must have been replayed with both outcomes (vacuity guard)
+    for v in ("ctor", "set_none", "set_valid", "set_stepped"):
+        for o in ("accept", "reject"):
+            if not paths.get("%s/%s" % (v, o)):
+                raise MachineryError("no case of Conjugate.tla reaches a sampler on path %s with outcome %s" % (v, o))
+    ctx.observe("cases_by_path_and_outcome", paths)
     for k in ("legacy_refuses_at_step_not_construction", "legacy_accepts_undocumented_but_exact_rows"):
         if k in ctx.observations:
             ctx.observations[k] = sorted(set(ctx.observations[k]))
@@ -629,8 +788,10 @@ def run(ctx):
     for c in pick:
         ctx.sample({"case": {k: c[k] for k in ("fam", "pd", "n", "gbc", "gorder", "attr", "dep", "model", "v", "b", "mu0", "alpha", "beta",
                                                "m", "k", "q", "shape", "rate", "accept", "conjugable", "chain")}})
-    ctx.rule = ("one case per terminal state (rejected / done) of Conjugate.tla: instance x scripted chain, with exact rational shape/rate, "
-                "rank, quadratic form and the expected outcome; non-trivial = distinct (instance, realisation of the joint, interface, chain)")
+    ctx.rule = ("one case per terminal state (rejected / done) of Conjugate.tla: instance x path on which the posterior reaches the sampler "
+                "(constructor / target assigned to a sampler without target / constructed on / stepped on a supported posterior) x scripted "
+                "chain, with exact rational shape/rate, rank, quadratic form and the expected outcome; non-trivial = distinct (instance, "
+                "path, realisation of the joint, interface, chain)")
     ctx.exhaustive = True
     ctx.observe("cases_accept_reject", [n_acc, n_rej])
     ctx.assumptions += ["sizes bounded by the cfg (MaxN1, MaxN2, MaxG); dependence kinds limited to the modelled family",
